@@ -1,4 +1,5 @@
 import IronCalc.Formula.Spelling
+import IronCalc.Props.C23
 import IronCalc.Generated.ParenStringify
 /-
   C10 — Display language and locale never change what formulas compute.
@@ -44,14 +45,14 @@ theorem C10_values_language_free {V : Type} (ev : List (List Tok) → List (List
     spelling whose identifier table is injective (no two functions/booleans written alike — the
     obligation C23 discharges on the tables extracted from the running code), reading the
     spelled printed formula back and parsing it returns the tree. -/
-theorem C10_retype (iv : Nat → Bool) (T : Table) (σ : Spelling) (hinj : σ.injective) (e : Node)
+theorem C10_retype {W : Type} [DecidableEq W] (iv : Nat → Bool) (T : Table) (σ : Spelling W) (hinj : σ.injective) (e : Node)
     (hwf : e.wf iv = true) (hnb : e.noBad T = true) (hk : identsKnown σ (pr T e)) :
     ∃ ts, unspell σ ((pr T e).map (spellTok σ)) = some ts ∧
       ∃ f0, ∀ f, f0 ≤ f → P iv f 0 ts = some (e, []) :=
   ⟨pr T e, unspell_spell σ hinj _ hk, roundtrip_partial iv T e hwf hnb⟩
 
 /-- the same for the code's own printer (table re-extracted on every run) -/
-theorem C10_retype_stringify (iv : Nat → Bool) (σ : Spelling) (hinj : σ.injective) (e : Node)
+theorem C10_retype_stringify {W : Type} [DecidableEq W] (iv : Nat → Bool) (σ : Spelling W) (hinj : σ.injective) (e : Node)
     (hwf : e.wf iv = true) (hnb : e.noBad IronCalc.Generated.parenStringify = true)
     (hk : identsKnown σ (pr IronCalc.Generated.parenStringify e)) :
     ∃ ts, unspell σ ((pr IronCalc.Generated.parenStringify e).map (spellTok σ)) = some ts ∧
@@ -61,16 +62,18 @@ theorem C10_retype_stringify (iv : Nat → Bool) (σ : Spelling) (hinj : σ.inje
 /-- a table in which two functions share a spelling really breaks re-entry: the second one is
     read back as the first -/
 theorem C10_needs_injective :
-    let σ : Spelling := { word := fun x => if x = 1001 ∨ x = 1002 then ['S', 'U', 'M'] else ['X'],
-                          known := [1001, 1002], argSep := ',', decimal := '.' }
+    let σ : Spelling (List Char) :=
+      { word := fun x => if x = 1001 ∨ x = 1002 then ['S', 'U', 'M'] else ['X'],
+        known := [1001, 1002], argSep := ',', decimal := '.' }
     unspell σ ([Tok.ident 1002].map (spellTok σ)) = some [Tok.ident 1001] := by
   decide
 
 /-- non-vacuity: a two-function Spanish-like table is injective and knows the identifiers of
     `SUMA(1;MAX(2))` -/
 example :
-    let σ : Spelling := { word := fun x => if x = 1001 then ['S', 'U', 'M', 'A'] else ['M', 'A', 'X'],
-                          known := [1001, 1003], argSep := ';', decimal := ',' }
+    let σ : Spelling (List Char) :=
+      { word := fun x => if x = 1001 then ['S', 'U', 'M', 'A'] else ['M', 'A', 'X'],
+        known := [1001, 1003], argSep := ';', decimal := ',' }
     σ.injective ∧ identsKnown σ (pr IronCalc.Generated.parenStringify
       (Node.call 1001 (Args.consN (Node.lit .number 1)
         (Args.consN (Node.call 1003 (Args.consN (Node.lit .number 2) Args.nil)) Args.nil)))) := by
@@ -79,5 +82,42 @@ example :
     simp at hx hy
     rcases hx with rfl | rfl <;> rcases hy with rfl | rfl <;> simp_all
   · simp [pr, prArgs, prTail, identsKnown]
+
+/-! ### the spelling tables of the running code -/
+
+/-- the spelling of language `L` as extracted from the running code on every check
+    (Generated/Names.lean): identifier `i` is the `i`-th built-in function, written with its
+    localized name (UTF-8 code); separators are those of any locale -/
+def realSpelling (L : Nat) (argSep decimal : Char) : Spelling Nat :=
+  { word := fun i => IronCalc.Names.nameOf L i,
+    known := List.range IronCalc.Generated.Names.nFunctions,
+    argSep := argSep, decimal := decimal }
+
+/-- the injectivity obligation of `C10_retype` holds for every supported language: it is C23's
+    `names_nodup`, itself a kernel evaluation on the regenerated table -/
+theorem realSpelling_injective (L : Nat) (hL : L < IronCalc.Generated.Names.nLanguages) (a d : Char) :
+    (realSpelling L a d).injective := by
+  intro x hx y hy h
+  simp only [realSpelling, List.mem_range] at hx hy h
+  exact IronCalc.Names.names_nodup L x y hL hx hy h
+
+/-- **C10 for the real tables**: in every supported language and with any separators, a formula
+    printed by the code's own printer, spelled in that language and read back there, parses to the
+    same tree — for every well-formed tree over the built-in functions that avoids the listed
+    known-bad parenthesisation pairs. -/
+theorem C10_retype_real (L : Nat) (hL : L < IronCalc.Generated.Names.nLanguages) (a d : Char)
+    (iv : Nat → Bool) (e : Node) (hwf : e.wf iv = true)
+    (hnb : e.noBad IronCalc.Generated.parenStringify = true)
+    (hk : identsKnown (realSpelling L a d) (pr IronCalc.Generated.parenStringify e)) :
+    ∃ ts, unspell (realSpelling L a d)
+        ((pr IronCalc.Generated.parenStringify e).map (spellTok (realSpelling L a d))) = some ts ∧
+      ∃ f0, ∀ f, f0 ≤ f → P iv f 0 ts = some (e, []) :=
+  C10_retype_stringify iv _ (realSpelling_injective L hL a d) e hwf hnb hk
+
+/-- non-vacuity: `SUM(1,MAX(2))`-shaped tree over function indices 0 and 1 in language 0 -/
+example : identsKnown (realSpelling 0 ';' ',') (pr IronCalc.Generated.parenStringify
+      (Node.call 0 (Args.consN (Node.lit .number 1)
+        (Args.consN (Node.call 1 (Args.consN (Node.lit .number 2) Args.nil)) Args.nil)))) := by
+  simp [pr, prArgs, prTail, identsKnown, realSpelling, IronCalc.Generated.Names.nFunctions]
 
 end IronCalc.Formula
